@@ -6,7 +6,8 @@
 
 The same hole tag used twice means the same lexeme (construct names, labels).  A unit chooses
 which holes are symbolic (the others take the defaults below) and how long they are.
-Flags: f08 = Fortran-2008 only; fix = may be rendered in fixed form; one = in the fparser1 subset.
+Flags: f08 = Fortran-2008 only; fix = may be rendered in fixed form; one = in the fparser1 subset;
+mod = only in a module specification part; x = extended set (see below).
 """
 
 DEFAULTS = dict(n1="a", n2="b2", n3="c_3", n4="dd", n5="e5", n6="fr", n7="g7", n8="pg", n9="nm",
@@ -70,6 +71,7 @@ SPEC = [
     ("intent", "integer, intent(in) :: {n1}", ""),
     ("procedure_decl", "procedure({n1}), pointer :: {n2}", ""),
     ("bind_c", "integer, bind(c, name='{s1}') :: {n1}", ""),
+    ("bind_c_plain", "integer, bind(c) :: {n1}", "x"),
     ("format", "{L1} format (1x, a, i{d1})", "fix one"),
     ("format_str", "{L1} format ('{s1}', f{d1}.2)", "fix"),
     ("derived_type", "type {n1}\n  integer :: {n2}\nend type {n1}", ""),
@@ -83,6 +85,51 @@ SPEC = [
     ("derived_type_contig", "type {n1}\n  real, pointer, contiguous :: {n2}(:)\nend type {n1}", "f08"),
     ("contiguous", "real, contiguous, pointer :: {n1}(:)", "f08"),
     ("codimension", "real, codimension[*] :: {n1}", "f08"),
+    # ---- added after a coverage audit of the rule classes' match()/tostr() (tools/covaudit.py) and the
+    # round-3 seeded changes; flag x = extended (quick tier: fewer rotations, no depth-2 nesting)
+    ("bind_stmt", "bind(c, name='{s1}') :: {n1}", "x"),
+    ("bind_stmt_nocolons", "bind(c) {n1}, /{n2}/", "x"),
+    ("data_implied", "data ({n1}({n2}), {n2} = 1, {d1}, 2) /{d2}*0/", "fix x"),
+    ("data_two", "data {n1}, {n2} /{d1}, {d2}/, {n3} /{d3}*1.0/", "fix x"),
+    ("common_blank", "common // {n1}, {n2}({d1})", "fix x"),
+    ("common_two", "common /{n1}/ {n2} /{n3}/ {n4}, {n5}", "fix x"),
+    ("dimension_two", "dimension {n1}({d1}), {n2}(0:{d2}, {d3})", "fix x"),
+    ("implicit_two", "implicit integer (i-k), real*8 (z)", "fix x"),
+    ("namelist_two", "namelist /{n1}/ {n2}, {n3} /{n4}/ {n5}", "fix x"),
+    ("equivalence_two", "equivalence ({n1}, {n2}({d1})), ({n3}, {n4})", "fix x"),
+    ("char_sel_both", "character({d1}, {n1}) :: {n2}", "fix x"),
+    ("char_old_len", "character*{d1} {n1}, {n2}*{d2}", "fix x"),
+    ("char_assumed", "character*(*) {n1}", "fix x"),
+    ("use_only_rename", "use {n1}, only: {n2} => {n3}, operator(.{o1}.), {n4}", "x"),
+    ("use_nonintrinsic", "use, non_intrinsic :: {n1}", "x"),
+    ("use_only_empty", "use {n1}, only:", "x"),
+    ("use_rename_op", "use {n1}, operator(.{o1}.) => operator(.plus.)", "x"),
+    ("derived_type_param", "type {n1}({n2})\n  integer, kind :: {n2} = {d1}\n  real({n2}) :: {n3}\nend type {n1}", "x"),
+    ("derived_type_abstract", "type, abstract, bind(c) :: {n1}\nend type", "x"),
+    ("derived_proc_comp", "type {n1}\n  procedure({n2}), pointer, nopass :: {n3} => null()\nend type {n1}", "x"),
+    ("derived_binding", "type {n1}\ncontains\n  procedure, pass({n2}), non_overridable :: {n3} => {n4}\n  generic :: {n5} => {n3}\n  final :: {n6}\nend type", "x"),
+    ("derived_comp_init", "type {n1}\n  integer :: {n2} = {d1}\n  real, pointer :: {n3}(:) => null()\n  character(len={d2}) :: {n4}*{d3}\nend type {n1}", "x"),
+    ("derived_private", "type {n1}\n  private\n  real, dimension({d1}), public :: {n2}\nend type {n1}", "x"),
+    ("proc_decl_init", "procedure({n1}), pointer :: {n2} => null()", "x"),
+    ("proc_decl_real", "procedure(real), save, pointer :: {n1}, {n2}", "x"),
+    ("enum_multi", "enum, bind(c)\n  enumerator {n1}, {n2} = {d1}\n  enumerator :: {n3}\nend enum", "x"),
+    ("interface_abstract", "abstract interface\n  function {n1}({n2}) result({n3})\n    real :: {n2}, {n3}\n  end function {n1}\nend interface", "x"),
+    ("interface_assign", "interface assignment (=)\n  module procedure {n1}, {n2}\nend interface assignment (=)", "x"),
+    ("interface_dtio", "interface write(formatted)\n  module procedure {n1}\nend interface", "x"),
+    ("interface_opsym", "interface operator (+)\n  procedure {n1}\nend interface operator (+)", "x"),
+    ("format_many", "{L1} format (i{d1}, 2x, f{d2}.3, /, 3(a, 1x), e12.4e2, tr{d1}, sp, 'x')", "fix x"),
+    ("format_ctrl", "{L1} format (a, :, /, t{d1}, tl2, 1p, bn, ss, es{d2}.3, g10.3, l1, //)", "fix x"),
+    ("format_nested", "{L1} format ({d1}(i2, 2(f4.1, '{s1}')), a{d2})", "fix x"),
+    ("format_star", "{L1} format (*(i{d1}, :, ','))", "f08 x"),
+    ("codimension_explicit", "real, codimension[{d1}, 1:{d2}, *] :: {n1}", "f08 x"),
+    ("save_all", "save", "fix x"),
+    ("save_common", "save /{n1}/, {n2}", "fix x"),
+    ("external_many", "external :: {n1}, {n2}", "x"),
+    ("access_stmt", "private :: {n1}, operator(.{o1}.)", "mod x"),
+    ("protected", "real, protected :: {n1}", "mod x"),
+    ("value_attr", "integer, value :: {n1}", "x"),
+    ("import_stmt", "interface\n  subroutine {n1}({n2})\n    import :: {n3}\n    type({n3}) :: {n2}\n  end subroutine {n1}\nend interface", "x"),
+    ("stmt_function", "{n1}({n2}) = {n2} + {d1}", "fix x"),
 ]
 
 # ---- executable statements (kind "exec")
@@ -146,6 +193,65 @@ EXEC = [
     ("error_stop", "error stop {d1}", "f08"),
     ("allocate_mold", "allocate({n1}, mold = {n2})", "f08"),
     ("open_newunit", "open(newunit = {n1}, file = '{s1}')", "f08"),
+    # ---- added after a coverage audit of the rule classes' match()/tostr() (tools/covaudit.py) and the
+    # round-3 seeded changes; flag x = extended (quick tier: fewer rotations, no depth-2 nesting)
+    ("ptr_assign_bounds", "{n1}({d1}:) => {n2}", "x"),
+    ("ptr_assign_remap", "{n1}(1:{d1}, 1:{d2}) => {n2}", "x"),
+    ("ptr_assign_comp", "{n1}%{n2} => {n3}%{n4}", "x"),
+    ("ptr_assign_null", "{n1} => null()", "x"),
+    ("allocate_bounds", "allocate({n1}({d1}:{d2}, 0:{n2}))", "x"),
+    ("allocate_typed", "allocate(real :: {n1}({d1}))", "x"),
+    ("allocate_source", "allocate({n1}, source = {n2}, stat = {n3}, errmsg = {n4})", "x"),
+    ("allocate_char", "allocate(character(len={d1}) :: {n1})", "x"),
+    ("deallocate_stat", "deallocate({n1}, {n2}, stat = {n3})", "x"),
+    ("arrcons_typed", "{n1} = (/ integer :: {d1}, {d2} /)", "x"),
+    ("arrcons_implied", "{n1} = (/ ({n2} * 2, {n2} = 1, {d1}) /)", "fix x"),
+    ("arrcons_implied2", "{n1} = (/ (({n2} + {n3}, {n2} = 1, {d1}, 2), {n3} = 1, {d2}) /)", "fix x"),
+    ("arrcons_square", "{n1} = [{d1}, {d2}, {n2}]", "x"),
+    ("arrcons_empty", "{n1} = [integer ::]", "x"),
+    ("print_implied", "print *, ({n1}({n2}), {n2} = 1, {d1})", "fix x"),
+    ("print_implied_rel", "print *, ({n1}({n2}) >= {d2}, {n2} = 1, {d1})", "fix x"),
+    ("write_implied_nested", "write(*, *) (({n1}({n2}, {n3}), {n2} = 1, {d1}), {n3} = 1, {d2}, 2)", "fix x"),
+    ("read_label", "read {L1}, {n1}\n{L1} format (i{d1})", "fix x"),
+    ("read_star_only", "read *, {n1}, {n2}", "fix x"),
+    ("read_many_kw", "read(unit = {d1}, fmt = '(a)', iostat = {n1}, end = {L1}, err = {L2}) {n2}\n{L1} continue\n{L2} continue", "fix x"),
+    ("read_nml", "read({d1}, nml = {n1})", "fix x"),
+    ("read_rec", "read({d1}, rec = {n1}) {n2}", "fix x"),
+    ("print_label", "print {L1}, {n1}\n{L1} format (a)", "fix x"),
+    ("print_only", "print *", "fix x"),
+    ("write_many_kw", "write(unit = {d1}, fmt = '(a)', iostat = {n1}, err = {L1}, advance = 'no') {n2}\n{L1} continue", "fix x"),
+    ("write_label_fmt", "write({d1}, {L1}) {n1}\n{L1} format (a)", "fix x"),
+    ("write_internal", "write({n1}, '(i{d1})') {n2}", "fix x"),
+    ("open_reordered", "open(file = '{s1}', unit = {d1}, action = 'read', iostat = {n1})", "fix x"),
+    ("open_positional", "open({d1}, file = '{s1}', form = 'unformatted', access = 'direct', recl = {d2})", "fix x"),
+    ("close_many", "close({d1}, status = 'keep', iostat = {n1})", "fix x"),
+    ("inquire_file", "inquire(file = '{s1}', exist = {n1}, opened = {n2})", "fix x"),
+    ("inquire_iolength", "inquire(iolength = {n1}) {n2}, {n3}", "fix x"),
+    ("rewind_kw", "rewind(unit = {d1}, iostat = {n1})", "fix x"),
+    ("wait_stmt", "wait(unit = {d1})", "x"),
+    ("flush_plain", "flush {d1}", "x"),
+    ("backspace_plain", "backspace {d1}", "fix x"),
+    ("endfile_kw", "endfile(unit = {d1}, iostat = {n1})", "fix x"),
+    ("forall_mask", "forall ({n1} = 1:{d1}:2, {n2}({n1}) > 0) {n2}({n1}) = 0", "x"),
+    ("where_assign_expr", "where ({n1} /= 0 .and. {n2} > {d1}) {n3} = {n2} / {n1}", "x"),
+    ("call_altreturn", "call {n1}({n2}, *{L1})\n{L1} continue", "fix x"),
+    ("computed_goto_nocomma", "go to ({L1}) {n1}\n{L1} continue", "fix x"),
+    ("assign_defop_unary", "{n1} = .{o1}. {n2}", "x"),
+    ("assign_defop_bin", "{n1} = {n2} .{o1}. {n3} + {d1}", "x"),
+    ("assign_concat_rel", "{n1} = {n2} // '{s1}' == {n3}", "fix x"),
+    ("assign_eqv", "{n1} = {n2} .eqv. {n3} .neqv. .false.", "fix x"),
+    ("assign_rel_dot", "{n1} = {n2} .lt. {d1} .or. {n3} .ge. {d2}", "fix x"),
+    ("assign_complex", "{n1} = ({d1}.0, -{d2}.0) * {n2}", "fix x"),
+    ("assign_neg_paren", "{n1} = -(-(+({n2} - {d1})))", "fix x"),
+    ("assign_not_paren", "{n1} = .not. (.not. ({n2} .or. {n3}))", "fix x"),
+    ("assign_kw_call", "{n1} = {n2}({n3}, {n4} = {d1})", "x"),
+    ("assign_comp_chain", "{n1}%{n2}({d1})%{n3} = {n4}%{n5}", "x"),
+    ("assign_char_kind", "{n1} = {n2}_'{s1}'", "x"),
+    ("assign_dble", "{n1} = {d1}.{d2}d0 + {d3}.d-2 + .5", "fix x"),
+    ("assign_div_cat", "{n1} = {n2} / {n3} // {n4}", "fix x"),
+    ("stop_expr_str", "stop \"{s1}\"", "fix x"),
+    ("exit_plain", "do\nexit\nend do", "x"),
+    ("error_stop_str", "error stop '{s1}'", "f08 x"),
 ]
 
 # ---- constructs (kind "cons"); {S} is a nested body
@@ -178,6 +284,21 @@ CONS = [
     ("block_named", "{n9}: block\n{S}\nend block {n9}", "f08"),
     ("critical", "critical\n{S}\nend critical", "f08"),
     ("do_concurrent", "do concurrent ({n1} = 1:{d1})\n{S}\nend do", "f08"),
+    # ---- added after a coverage audit of the rule classes' match()/tostr() (tools/covaudit.py) and the
+    # round-3 seeded changes; flag x = extended (quick tier: fewer rotations, no depth-2 nesting)
+    ("if_named_elseif", "{n9}: if ({n1} == {d1}) then\n{S}\nelse if ({n1} == {d2}) then {n9}\n{S}\nelse {n9}\n{S}\nend if {n9}", "x"),
+    ("where_named", "{n9}: where ({n1} > 0)\n{n1} = 1\nelsewhere ({n1} < 0) {n9}\n{n1} = 2\nelsewhere {n9}\n{n1} = 0\nend where {n9}", "x"),
+    ("forall_named", "{n9}: forall ({n1} = 1:{d1})\n{n2}({n1}) = 0\nend forall {n9}", "x"),
+    ("select_named_default", "{n9}: select case ({n1})\ncase ({d1}, {d2}:) {n9}\n{S}\ncase default {n9}\n{S}\nend select {n9}", "x"),
+    ("select_type_named", "{n9}: select type ({n1} => {n2})\ntype is (real) {n9}\n{S}\nclass default {n9}\n{S}\nend select {n9}", "x"),
+    ("associate_named", "{n9}: associate ({n1} => {n2}, {n3} => {n4}({d1}))\n{S}\nend associate {n9}", "x"),
+    ("do_named_label_term", "{n9}: do {L1} {n1} = 1, {d1}\n{S}\n{L1} end do {n9}", "x"),
+    ("do_while_named", "{n9}: do while ({n1} < {d1})\n{S}\nend do {n9}", "x"),
+    ("do_comma", "do, {n1} = 1, {d1}\n{S}\nend do", "fix x"),
+    ("do_label_while", "do {L1} while ({n1} < {d1})\n{S}\n{L1} continue", "fix x"),
+    ("select_case_logical", "select case ({n1} > {d1})\ncase (.true.)\n{S}\ncase (.false.)\n{S}\nend select", "fix x"),
+    ("do_concurrent_mask", "do concurrent ({n1} = 1:{d1}, {n2} = 1:{d2}, {n1} /= {n2})\n{S}\nend do", "f08 x"),
+    ("critical_named", "{n9}: critical\n{S}\nend critical {n9}", "f08 x"),
 ]
 
 # ---- program-unit contexts; {SPEC} and {EXEC} are statement lists
@@ -194,6 +315,15 @@ UNITS = [
     ("two_units", "subroutine {n7}\nend subroutine {n7}\nprogram {n8}\n{SPEC}\n{EXEC}\nend program {n8}", "fix one"),
     ("block_data", "block data {n8}\n{SPEC}\nend block data {n8}", "fix"),
     ("submodule", "submodule ({n6}) {n8}\n{SPEC}\ncontains\nsubroutine {n7}()\n{EXEC}\nend subroutine {n7}\nend submodule {n8}", "f08"),
+    # ---- added after a coverage audit of the rule classes' match()/tostr() (tools/covaudit.py) and the
+    # round-3 seeded changes; flag x = extended (quick tier: fewer rotations, no depth-2 nesting)
+    ("block_data_anon", "block data\n{SPEC}\nend block data", "fix x"),
+    ("function_prefix", "pure elemental real function {n8}({n7})\n{SPEC}\n{EXEC}\n{n8} = 1\nend function {n8}", "x"),
+    ("function_result_bind", "function {n8}() result({n6}) bind(c)\n{SPEC}\n{EXEC}\nend function {n8}", "x"),
+    ("subroutine_prefix", "recursive subroutine {n8}({n7}, *)\n{SPEC}\n{EXEC}\nend subroutine {n8}", "fix x"),
+    ("subroutine_entry", "subroutine {n8}({n7})\n{SPEC}\nentry {n6}({n7})\n{EXEC}\nreturn\nend subroutine {n8}", "fix x"),
+    ("function_entry", "function {n8}({n7})\n{SPEC}\nentry {n6}() result({n7})\n{EXEC}\nreturn\nend function {n8}", "x"),
+    ("module_interface", "module {n8}\n{SPEC}\ninterface {n6}\n  module procedure {n7}\nend interface {n6}\ncontains\nsubroutine {n7}()\n{EXEC}\nend subroutine {n7}\nend module {n8}", "x"),
 ]
 
 
